@@ -315,7 +315,7 @@ def closeP1 (r : AReq) (st : CloseSt) (m : MutexSt) (t : Transport) : Except Clo
     match r.writeablePoll (st == .inWriteable) m t with
     | (r, _, m, t, .ready) => .ok (r, m, t, .start)
     | (r, _, m, t, .pending) => .error (r, .inWriteable, m, t, .pending)
-    | (r, _, m, t, .err e) => if e == .connectionAborted then .ok (r, m, t, .start) else .error (r, .inWriteable, m, t, .err e)
+    | (r, _, m, t, .err e) => if e == .abortRequest then .ok (r, m, t, .start) else .error (r, .inWriteable, m, t, .err e)
     | (r, _, m, t, .panic s) => .error (r, .inWriteable, m, t, .panic s)
   | s => .ok (r, m, t, s)
 
@@ -549,8 +549,8 @@ def stepConn (c : Conn) : Step :=
       match res with
       | .ok st => .next { c with phase := .closing r .start st alive, env := e.ev s!"HE(ok:{showStatus st})" }
       | .error x =>
-        if x == .connectionAborted then
-          .next { c with phase := .closing r .start ExitStatus.abort alive, env := e.ev "HE(err:aborted)" }
+        if x == .abortRequest then
+          .next { c with phase := .closing r .start ExitStatus.abort alive, env := e.ev "HE(err:abort-request)" }
         else .halt { c with phase := .finished, env := e.ev s!"HE(err:{showIo x})" } .finished
   | .closing r cs status alive =>
     match closePoll r cs status alive c.env.mutex c.env.tr with
@@ -1526,7 +1526,7 @@ theorem closeP1_ok {r : AReq} {st : CloseSt} {m : MutexSt} {t : Transport} {r1 :
 theorem closeP1_error {r : AReq} {st : CloseSt} {m : MutexSt} {t : Transport} {r' : AReq} {cs' : CloseSt}
     {m' : MutexSt} {t' : Transport} {res : CRes} (h : closeP1 r st m t = .error (r', cs', m', t', res)) :
     cs' = .inWriteable ∧ (st = .start ∨ st = .inWriteable) ∧
-    (res = .pending ∨ (∃ e, res = .err e ∧ e ≠ .connectionAborted) ∨ ∃ s, res = .panic s ∧ RealSite s) := by
+    (res = .pending ∨ (∃ e, res = .err e ∧ e ≠ .abortRequest) ∨ ∃ s, res = .panic s ∧ RealSite s) := by
   simp only [closeP1] at h
   repeat' (split at h)
   all_goals first
@@ -1535,7 +1535,7 @@ theorem closeP1_error {r : AReq} {st : CloseSt} {m : MutexSt} {t : Transport} {r
        refine ⟨rfl, by simp, ?_⟩
        first
         | exact Or.inl rfl
-        | exact Or.inr (Or.inl ⟨_, rfl, by simpa using ‹¬ (_ == IoErr.connectionAborted) = true›⟩)
+        | exact Or.inr (Or.inl ⟨_, rfl, by simpa using ‹¬ (_ == IoErr.abortRequest) = true›⟩)
         | exact Or.inr (Or.inr ⟨_, rfl, h2 _ rfl⟩))
     | cases h
 
@@ -1683,8 +1683,17 @@ def closeDecision (r : AReq) : CRes :=
     | none => .panic "stream.rs:552 output_buffer must be fully consumed"
   else .err .connectionReset
 
+/-- the kinds a failing transport write can carry -/
+def WrKind (e : IoErr) : Prop := e = .transportWrite ∨ e = .connectionAborted
+
+theorem wrErr_kind (t : Transport) : WrKind t.wrErr := by
+  unfold Transport.wrErr WrKind; split <;> simp
+
+theorem WrKind.ne_abort {e : IoErr} (h : WrKind e) : e ≠ .abortRequest := by
+  rcases h with rfl | rfl <;> decide
+
 theorem writeV_err_kind (t : Transport) (sl : List Bytes) (tag : String) (e : IoErr)
-    (h : (t.writeV sl tag).2 = .ready (.error e)) : e = .transportWrite := by
+    (h : (t.writeV sl tag).2 = .ready (.error e)) : WrKind e := by
   unfold Transport.writeV at h
   generalize sl.flatten = data at h
   by_cases hd : data.isEmpty = true
@@ -1692,15 +1701,15 @@ theorem writeV_err_kind (t : Transport) (sl : List Bytes) (tag : String) (e : Io
   · simp only [hd, Bool.false_eq_true, if_false] at h
     cases hwr : t.wr with
     | nil => simp [hwr] at h
-    | cons a rest => cases a <;> simp [hwr] at h <;> exact h.symm
+    | cons a rest => cases a <;> simp [hwr] at h <;> (rw [← h]; exact wrErr_kind t)
 
 theorem write_err_kind {t t' : Transport} {buf : Bytes} {e : IoErr}
-    (h : t.write buf = (t', .ready (.error e))) : e = .transportWrite := by
+    (h : t.write buf = (t', .ready (.error e))) : WrKind e := by
   apply writeV_err_kind t [buf] "W" e
   unfold Transport.write at h; rw [h]
 
 theorem writeAllLoop_err : ∀ (fuel : Nat) (buf : Bytes) (t : Transport) {rest : Bytes} {t' : Transport} {e : IoErr},
-    writeAllLoop fuel buf t = (rest, t', .err e) → e = .transportWrite ∨ e = .writeZero := by
+    writeAllLoop fuel buf t = (rest, t', .err e) → WrKind e ∨ e = .writeZero := by
   intro fuel
   induction fuel with
   | zero => intro buf t rest t' e h; simp only [writeAllLoop] at h; cases h
@@ -1715,7 +1724,7 @@ theorem writeAllLoop_err : ∀ (fuel : Nat) (buf : Bytes) (t : Transport) {rest 
       | cases h
 
 /-- a write failure of the transport -/
-def WriteFail (res : CRes) : Prop := res = .err .transportWrite ∨ res = .err .writeZero
+def WriteFail (res : CRes) : Prop := (∃ e, WrKind e ∧ res = .err e) ∨ res = .err .writeZero
 
 theorem finishEnd_spec {r : AReq} {rest : Bytes} {m : MutexSt} {t : Transport}
     {r' : AReq} {cs' : CloseSt} {m' : MutexSt} {t' : Transport} {res : CRes}
@@ -1753,8 +1762,8 @@ theorem finishEnd_spec {r : AReq} {rest : Bytes} {m : MutexSt} {t : Transport}
     | err e =>
       simp only at h; cases h
       refine ⟨rfl, rfl, done, rest', rfl, hd, hl, hin, Or.inr (Or.inr ?_)⟩
-      rcases writeAllLoop_err _ _ _ hw with rfl | rfl
-      · exact Or.inl rfl
+      rcases writeAllLoop_err _ _ _ hw with hk | rfl
+      · exact Or.inl ⟨_, hk, rfl⟩
       · exact Or.inr rfl
     | panic s => exact absurd rfl (hf (by omega) s)
     | ready =>
@@ -1841,8 +1850,8 @@ theorem closeP4_spec {r : AReq} {st : CloseSt} {m : MutexSt} {t : Transport}
         simp only at h; cases h
         refine ⟨rfl, rfl, rfl, rfl, hin, ⟨done, ?_, hl1⟩, Or.inr (Or.inr ?_), id⟩
         · simp only [CloseSt.owed]; rw [hd, List.append_assoc]
-        · rcases writeAllLoop_err _ _ _ hw with rfl | rfl
-          · exact Or.inl rfl
+        · rcases writeAllLoop_err _ _ _ hw with hk | rfl
+          · exact Or.inl ⟨_, hk, rfl⟩
           · exact Or.inr rfl
       | panic s => exact absurd rfl (hf (by omega) s)
       | ready =>
@@ -2111,7 +2120,7 @@ theorem closePoll_panic {r : AReq} {st : CloseSt} {status : ExitStatus} {alive :
     rcases hres with ⟨_, hd⟩ | ⟨hd, _⟩ | hd
     · rw [closeDecision_panic hd.symm]; exact .of_async (by decide)
     · cases hd
-    · rcases hd with hd | hd <;> cases hd
+    · rcases hd with ⟨e, _, hd⟩ | hd <;> cases hd
   rcases closePoll_cases h with ⟨_, h1⟩ | ⟨_, r1, m1, t1, st1, _, h2⟩ | ⟨_, r1, m1, t1, st1, r2, m2, t2, _, _, hb, h3⟩ | ⟨hl, h4⟩
   · rcases (closeP1_error h1).2.2 with hp | ⟨e, hp, _⟩ | ⟨s', hp, hs⟩
     · cases hp
